@@ -99,6 +99,7 @@ func newChannel(ctx context.Context, chCfg ChannelConfig, chDir string) *channel
 	for _, repCfg := range chCfg.Reps {
 		ch.repsCfg[repCfg.Name] = repCfg
 	}
+	verifTrace("chan_created", map[string]any{"ch": chCfg.Name})
 	go ch.run(ctx)
 	return &ch
 }
@@ -289,6 +290,7 @@ func (ch *channel) addChunkData(rsd recSegData) {
 }
 
 func (ch *channel) receivedSegData(rsd recSegData) {
+	defer verifProcess(ch, &rsd)
 	log := slog.Default().With("chName", ch.name, "trName", rsd.name, "seqNr", rsd.seqNr)
 	if _, ok := ch.trDatas[rsd.name]; !ok {
 		log.Error("received segData for unknown track")
@@ -378,6 +380,7 @@ func (ch *channel) receivedSegData(rsd recSegData) {
 // If no previous video representation, this becomes the master track.
 // TODO. Handle audio-only case (no video representation).
 func (ch *channel) addTrData(rd *trData) {
+	verifGate("reg:" + rd.name)
 	ch.mu.Lock()
 	firstVideoTrack := true
 	for _, rep := range ch.trDatas {
